@@ -26,6 +26,7 @@ _BUILTIN_EXT = {"str": {"str"}, "float": {"float"}, "int": {"int", "bool"}, "boo
                 "dict": {"dict"}, "tuple": {"tuple"}, "set": {"set"}}
 _NONNULL_CALLS = {"str", "repr", "format", "join", "float", "int", "bool"}
 ACCEPTING = {"built", "conv", "valid", "other", "nonnull", "param"}
+_PREDICATES = {"isinstance", "issubclass", "callable", "hasattr", "all", "any", "bool"}   # builtins whose result is a truth value
 
 
 # ---- path walker -------------------------------------------------------------------------------------------------------------
@@ -38,6 +39,10 @@ ACCEPTING = {"built", "conv", "valid", "other", "nonnull", "param"}
 #   hist   the same decisions, kept for good (what has been established about the value on this path)
 #   ev     the positive decisions about the source value (type / membership / equality answered yes, or a delegate conversion
 #          answered "not an error")
+#   cond   the decision a local stands for: after `ok = <test>` (a comparison, a builtin predicate, not / and / or of them, True /
+#          False; `ok` may also be a parameter of a helper walked in place that receives such an argument) a later `if ok` IS `if <test>`,
+#          so a decision that was given a name, folded into one condition or computed ahead of its use yields the same facts as the
+#          test written in the `if`; forgotten as soon as a name the test mentions is re-bound
 # Infeasible combinations are pruned (None is no error; two disjoint builtin types; bool without int).  Loops run to a fixpoint
 # over the finite state set, any statement of a try body may jump to its handlers.
 # A call to a private helper of the function's region (astutil.region: same module, `_name`, called by plain name / self. / cls. /
@@ -47,7 +52,7 @@ ACCEPTING = {"built", "conv", "valid", "other", "nonnull", "param"}
 # statements whether a piece of the function was extracted into a helper or not.
 
 class PState:
-    __slots__ = ("kind", "taint", "facts", "tfacts", "hist", "ev", "errs", "oks", "alias", "nul")
+    __slots__ = ("kind", "taint", "facts", "tfacts", "hist", "ev", "errs", "oks", "alias", "nul", "cond")
 
     def __init__(self) -> None:
         self.kind: dict[str, tuple[str, int | None]] = {}
@@ -60,6 +65,7 @@ class PState:
         self.oks: frozenset[int] = frozenset()      # conversions found not to be an error on this path
         self.alias: frozenset[str] = frozenset()    # names that hold the subject (the value under conversion) itself
         self.nul = False                            # on this path the subject was found to be None / to be a Value already
+        self.cond: dict[str, tuple[str, ast.expr]] = {}   # local -> (text, expression) of the decision it was bound to
 
     def copy(self) -> "PState":
         s = PState()
@@ -73,11 +79,13 @@ class PState:
         s.oks = self.oks
         s.alias = self.alias
         s.nul = self.nul
+        s.cond = dict(self.cond)
         return s
 
     def key(self) -> tuple:
         return (tuple(sorted(self.kind.items(), key=lambda kv: kv[0])), self.taint, tuple(sorted(self.facts.items())), self.tfacts,
-                self.hist, self.ev, self.errs, self.oks, self.alias, self.nul)
+                self.hist, self.ev, self.errs, self.oks, self.alias, self.nul,
+                tuple(sorted((n, t) for n, (t, _) in self.cond.items())))
 
     def said(self, text: str, truth: bool) -> bool:
         return (text, truth) in self.hist
@@ -137,6 +145,16 @@ class _Rename(ast.NodeTransformer):
         return n
 
 
+class _Subst(ast.NodeTransformer):
+    """names replaced by the expressions they stand for"""
+
+    def __init__(self, m: dict[str, ast.expr]) -> None:
+        self.m = m
+
+    def visit_Name(self, n: ast.Name) -> ast.AST:
+        return self.m[n.id] if isinstance(n.ctx, ast.Load) and n.id in self.m else n
+
+
 def _helpers_of(ix: Any, f: Any, depth: int = 3) -> dict[str, Any]:
     """private helpers of f's region by name (a name that is defined twice resolves to nothing)"""
     by: dict[str, list[Any]] = {}
@@ -189,6 +207,7 @@ class Paths:
         self._ret: list[list[tuple[PState, ast.expr | None]]] = []   # what the helper being walked returns, per path
         self._inner: set[int] = set()             # return statements of helpers (not returns of fn)
         self._synth: set[int] = set()             # `return <what the helper returned>`: stands for a return of fn, is no source statement
+        self._resolved: dict[tuple, ast.expr] = {}   # (decision, what its names stood for) -> the decision with those names replaced
         s0 = PState()
         s0.taint = frozenset(tainted)
         for p in self.params:
@@ -427,17 +446,61 @@ class Paths:
         """walk the helper this call goes to; (state, returned expression | None) for every path that comes back"""
         h = self._target(c)
         fn, binds = self._expand(c, h)
-        s = s.copy()
-        vals = [(nm, (self.kind_of(arg, s), self.derived(arg, s), self._is_alias(arg, s)) if arg is not None else (("other", None), False, False))
-                for nm, arg in binds]
-        for nm, (k, d, al) in vals:
-            self._bind(s, nm, k, d, al)
+        s = self._bind_params(s, binds)
         self._active.append(h.qual)
         self._ret.append([])
         outs = self._block(fn.body, [s], None)
         rets = self._ret.pop()
         self._active.pop()
         return rets + [(x, None) for x in outs]
+
+    def _bind_params(self, s: PState, binds: list[tuple[str, ast.expr | None]]) -> PState:
+        """the state in which a helper walked in place starts: its parameters hold what the arguments are in the caller's state"""
+        s = s.copy()
+        vals = [(nm, (self.kind_of(arg, s), self.derived(arg, s), self._is_alias(arg, s)) if arg is not None else (("other", None), False, False),
+                 self._decision(arg, s)) for nm, arg in binds]
+        for nm, (k, d, al), dec in vals:
+            self._bind(s, nm, k, d, al)
+            self._note(s, nm, dec, {nm})
+        return s
+
+    # -- decisions that were given a name ------------------------------------------------------------------------------------------
+    def _is_decision(self, e: ast.expr | None, s: PState) -> bool:
+        """is e a truth value by construction"""
+        if isinstance(e, ast.Compare) or (isinstance(e, ast.UnaryOp) and isinstance(e.op, ast.Not)):
+            return True
+        if isinstance(e, ast.Constant):
+            return isinstance(e.value, bool)
+        if isinstance(e, ast.BoolOp):
+            return any(self._is_decision(v, s) for v in e.values)
+        if isinstance(e, ast.Name):
+            return e.id in s.cond
+        if isinstance(e, ast.Call):
+            return call_name(e) in _PREDICATES
+        return False
+
+    def _decision(self, e: ast.expr | None, s: PState) -> ast.expr | None:
+        """the decision e is in this state, in terms of what is not itself a named decision (None: e is no decision)"""
+        if e is None or not self._is_decision(e, s):
+            return None
+        used = {n.id for n in ast.walk(e) if isinstance(n, ast.Name) and isinstance(n.ctx, ast.Load) and n.id in s.cond}
+        if not used:
+            return e
+        key = (id(e), tuple(sorted((nm, s.cond[nm][0]) for nm in used)))
+        if key not in self._resolved:
+            holder = ast.Expr(value=copy.deepcopy(e))
+            for o, n in zip(ast.walk(e), ast.walk(holder.value)):
+                self._orig[id(n)] = self.origin(o)
+            self._resolved[key] = ast.fix_missing_locations(_Subst({nm: s.cond[nm][1] for nm in used}).visit(holder)).value
+        return self._resolved[key]
+
+    def _note(self, s: PState, name: str, dec: ast.expr | None, bound: set[str]) -> None:
+        """`name` was just bound (together with the names `bound`) to the decision dec"""
+        if dec is None or names_in(dec) & bound:     # ok = ok and <test> over an ok that stands for nothing known
+            return
+        text = norm(dec)
+        self._names.setdefault(text, names_in(dec))
+        s.cond[name] = (text, dec)
 
     def _loop(self, n: ast.For | ast.While, s: PState, outer: dict | None) -> list[PState]:
         seen: dict[tuple, PState] = {}
@@ -485,16 +548,26 @@ class Paths:
                 targets[0].elts) == len(value.elts) and not any(isinstance(e, ast.Starred) for e in [*value.elts, *targets[0].elts]):
             # a, b = x, y: element by element (all right-hand sides are evaluated first)
             vals = [(self.kind_of(v, s), self.derived(v, s), self._is_alias(v, s)) for v in value.elts]
+            decs = [self._decision(v, s) for v in value.elts]
             s = s.copy()
             for t_, (k, d, al) in zip(targets[0].elts, vals):
                 self._assign_target(s, t_, k, d, al)
+            bound = {n.id for t_ in targets[0].elts for n in ast.walk(t_) if isinstance(n, ast.Name)}
+            for t_, dec in zip(targets[0].elts, decs):
+                if isinstance(t_, ast.Name):
+                    self._note(s, t_.id, dec, bound)
             return [s]
         k = self.kind_of(value, s)
         d = self.derived(value, s)
         al = self._is_alias(value, s)
+        dec = self._decision(value, s)
         s = s.copy()
         for t_ in targets:
             self._assign_target(s, t_, k, d, al)
+        bound = {n.id for t_ in targets for n in ast.walk(t_) if isinstance(n, ast.Name)}
+        for t_ in targets:
+            if isinstance(t_, ast.Name):
+                self._note(s, t_.id, dec, bound)
         return [s]
 
     def _is_alias(self, e: ast.expr | None, s: PState) -> bool:
@@ -516,6 +589,8 @@ class Paths:
             for f in [f for f in s.facts if txt in f]:
                 del s.facts[f]
             s.tfacts = tuple(x for x in s.tfacts if txt not in x[0])
+            for nm in [nm for nm, (t2, _) in s.cond.items() if txt in t2]:
+                del s.cond[nm]
 
     def _bind(self, s: PState, name: str, k: tuple[str, int | None], d: bool, al: bool = False) -> None:
         s.kind[name] = k
@@ -524,6 +599,8 @@ class Paths:
         for f in [f for f in s.facts if name in self._names.get(f, ())]:
             del s.facts[f]
         s.tfacts = tuple(x for x in s.tfacts if name not in self._names.get(x[0], ()))
+        for nm in [nm for nm, (t2, _) in s.cond.items() if nm == name or name in self._names.get(t2, ())]:
+            del s.cond[nm]
 
     # -- decisions ------------------------------------------------------------------------------------------------------------
     def _branch(self, e: ast.expr, s: PState) -> tuple[list[PState], list[PState]]:
@@ -543,6 +620,18 @@ class Paths:
             return f, t
         if isinstance(e, ast.Constant):
             return ([s], []) if e.value else ([], [s])
+        if isinstance(e, ast.Name) and e.id in s.cond:     # a decision that was given a name
+            return self._branch(s.cond[e.id][1], s)
+        if isinstance(e, ast.Call) and call_name(e) in ("all", "any", "bool") and len(e.args) == 1 and not e.keywords:
+            a0 = e.args[0]
+            if call_name(e) == "bool":
+                return self._branch(a0, s)
+            if isinstance(a0, (ast.Tuple, ast.List)) and not any(isinstance(x, ast.Starred) for x in a0.elts):
+                # all((a, b)) decides what `a and b` decides (every operand is evaluated, which changes no decision)
+                if not a0.elts:
+                    return ([s], []) if call_name(e) == "all" else ([], [s])
+                op = ast.And() if call_name(e) == "all" else ast.Or()
+                return self._branch(ast.BoolOp(op=op, values=list(a0.elts)) if len(a0.elts) > 1 else a0.elts[0], s)
         walrus = [n for n in ast.walk(e) if isinstance(n, ast.NamedExpr)]
         if walrus:   # `(x := E) is None`  is  `x = E` followed by `x is None`
             cur = [s]
@@ -560,15 +649,19 @@ class Paths:
             fn, binds = self._expand(e, self._target(e))
             body = [x for x in fn.body if not (isinstance(x, ast.Expr) and isinstance(x.value, ast.Constant))]
             if len(body) == 1 and isinstance(body[0], ast.Return) and body[0].value is not None:
-                s = s.copy()
-                for nm, (k, d, al) in [(nm, (self.kind_of(arg, s), self.derived(arg, s), self._is_alias(arg, s)) if arg is not None
-                                        else (("other", None), False, False)) for nm, arg in binds]:
-                    self._bind(s, nm, k, d, al)
+                s = self._bind_params(s, binds)
                 self._active.append(self._target(e).qual)
                 try:
                     return self._branch(body[0].value, s)
                 finally:
                     self._active.pop()
+            # any other helper: walked in place, each of its returns decides with what it returns
+            t_all, f_all = [], []
+            for s2, rv in self._inline(e, s):
+                t, f = self._branch(rv if rv is not None else ast.Constant(value=None), s2)
+                t_all += t
+                f_all += f
+            return t_all, f_all
         pos, flip = _positive(e)
         text = norm(pos)
         self._names.setdefault(text, names_in(pos))
@@ -852,6 +945,10 @@ def run(rep: Report, ctx: Any) -> str:
         last_[w] = (pc, fq)
     for w, (pc, fq) in sorted(last_.items()):
         pasted = {l for l in pc.labels if l in (RAW, UNKNOWN, RAW_NONSTR) or is_esc(l)}
+        if pasted and _literal_on_every_path(ix, w, fq):
+            # the label analysis joins what it knows where branches meet and does not follow a decision through the local that names
+            # it; the path walk does: on every path to this construction the text was found equal to a string literal of the source
+            pasted = set()
         rep.check(not pasted, "R13.3", fq.replace(PKG + ".", "") + "::Value.python_code", f"document text pasted into code ({sorted(pasted)})",
                   w, lhs=sorted(pc.labels), rhs="built, not pasted")
     rep.floor("value_constructions", len(last_), 8)
@@ -1119,6 +1216,85 @@ def _outside_calls(ix: Any, entry: Any, mod: Any) -> list[tuple[ast.Call, Any]]:
                 if id(n) not in best or size < best[id(n)][2]:
                     best[id(n)] = (n, f, size)
     return [(c, f) for c, f, _ in best.values()]
+
+
+# ---- R13.3: document text that is a literal of the source on every path ------------------------------------------------------------
+def _is_str_literal(e: ast.AST) -> bool:
+    return isinstance(e, ast.Constant) and isinstance(e.value, str)
+
+
+def _known_literal(e: ast.expr, s: PState) -> bool:
+    """on this path e is a string literal of the source: written as one, or a name that was found equal to one / to be one of a
+    literal collection of them (`e == "x"`, `e in ("x", "y")` answered yes) and has not been re-bound since"""
+    if _is_str_literal(e):
+        return True
+    if not isinstance(e, ast.Name):
+        return False
+    for text, truth in s.facts.items():
+        if not truth or e.id not in text:
+            continue
+        try:
+            t = ast.parse(text, mode="eval").body
+        except SyntaxError:
+            continue
+        if not (isinstance(t, ast.Compare) and len(t.ops) == 1):
+            continue
+        l, r = t.left, t.comparators[0]
+        if isinstance(t.ops[0], ast.Eq) and any(isinstance(a, ast.Name) and a.id == e.id and _is_str_literal(b) for a, b in ((l, r), (r, l))):
+            return True
+        if isinstance(t.ops[0], ast.In) and isinstance(l, ast.Name) and l.id == e.id and isinstance(r, (ast.Tuple, ast.List, ast.Set)) \
+                and r.elts and all(_is_str_literal(x) for x in r.elts):
+            return True
+    return False
+
+
+def _literal_on_every_path(ix: Any, w: str, fq: str) -> bool:
+    """is the python_code of the Value(...) constructed at `w` in function fq a string literal of the source on every path that
+    reaches the construction"""
+    f = next((g for g in ix.all_functions if g.qual == fq), None)
+    if f is None or isinstance(f.node, ast.AsyncFunctionDef):
+        return False
+    line = w.rpartition(":")[2]
+    calls = [c for c in ast.walk(f.node) if isinstance(c, ast.Call) and str(getattr(c, "lineno", "")) == line
+             and call_name(c).rsplit(".", 1)[-1] == "Value"]
+    if not calls:
+        return False
+    pp = Paths(f.node, helpers=_helpers_of(ix, f))
+    for c in calls:
+        code = next((kw.value for kw in c.keywords if kw.arg == "python_code"), c.args[0] if c.args else None)
+        if code is None:
+            return False
+        reached = False
+        for n, s in list(pp.records):
+            if n is None:
+                continue
+            chain = _chain_to(n, c)
+            if chain is None:
+                continue
+            # inside conditional expressions: the state in which the arm that holds the construction is evaluated
+            states = [s]
+            for parent, child in zip(chain, chain[1:]):
+                if isinstance(parent, ast.IfExp) and child is not parent.test:
+                    split = [pp._branch(parent.test, x) for x in states]
+                    states = [y for t, f_ in split for y in (t if child is parent.body else f_)]
+            for x in states:
+                reached = True
+                if not _known_literal(code, x):
+                    return False
+        if not reached:
+            return False
+    return True
+
+
+def _chain_to(root: ast.AST, target: ast.AST) -> list[ast.AST] | None:
+    """the nodes from root down to target (None: target is not inside root)"""
+    if root is target:
+        return [root]
+    for ch in ast.iter_child_nodes(root):
+        sub = _chain_to(ch, target)
+        if sub is not None:
+            return [root, *sub]
+    return None
 
 
 def _isinstance_of(text: str) -> tuple[str, list[str]] | None:
